@@ -178,6 +178,15 @@ fn job_violation(dirs: &Dirs, thread: &str, frames: &[&Frame]) -> Option<Violati
             match read_summary(dirs, art) {
                 Err(e) => return v("summary_unreadable", "summary_unreadable", e),
                 Ok(s) => {
+                    // a cumulative summary builds on the most recent PRIOR checkpoint: its base
+                    // must belong to a strictly earlier cut point
+                    if let Some(base) = s.get("basis").and_then(|b| b.get("base_summary_artifact_id")).and_then(|b| b.as_str()) {
+                        if let Some(bf) = frames.iter().find(|f| f.ty == "continuity_compaction_checkpoint_created" && f.s("summary_artifact_id") == Some(base)) {
+                            if bf.u("to_seq").unwrap_or(0) >= cf.u("to_seq").unwrap_or(0) {
+                                return v("summary_base_not_prior", "summary_base_not_prior", format!("summary {art} for cut {} is based on the summary of cut {} (not an earlier cut point)", cf.v["to_seq"], bf.v["to_seq"]));
+                            }
+                        }
+                    }
                     let cov = &s["coverage"];
                     if cov["thread_id"] != json!(thread) || cov["to_seq"] != cf.v["to_seq"] || cov["to_message_id"] != cf.v["to_message_id"] {
                         return v("summary_coverage", "summary_coverage_mismatch", format!("summary {art} coverage {cov} does not match checkpoint (to_seq {}, to_message_id {})", cf.v["to_seq"], cf.v["to_message_id"]));
